@@ -52,7 +52,8 @@ inline void c19Cases(Item& it, const std::string& bytes, std::initializer_list<i
 
 // ---- Ninja token strings ------------------------------------------------------------------------
 static const char* const kNinjaBase[16] = {"x", " ", "\n", "$", ":", "|", "=", "#", "${", "}", "rule", "build", "default", "include", "subninja", "pool"};
-static const char* const kNinjaSpecial[3] = {"\xff", "$\n", "\r"};
+// (form feed and vertical tab are isspace() bytes that are neither blanks nor newlines)
+static const char* const kNinjaSpecial[5] = {"\xff", "$\n", "\r", "\f", "\v"};
 struct NinjaTokenSpace : Source {
   StringEnum e; bool withSpecials; std::vector<std::string> alpha;
   NinjaTokenSpace(int maxLen, bool specials) : withSpecials(specials) {
@@ -70,10 +71,10 @@ struct NinjaTokenSpace : Source {
   }
 };
 // ---- Ninja raw bytes -------------------------------------------------------------------------------
-static const unsigned char kNinjaBytes[12] = {0x00, '\t', '\n', '\r', ' ', '$', ':', '|', '#', 'a', 0x80, 0xFF};
+static const unsigned char kNinjaBytes[14] = {0x00, '\t', '\n', '\r', ' ', '$', ':', '|', '#', 'a', 0x80, 0xFF, '\f', '\v'};
 struct NinjaByteSpace : Source {
   StringEnum e;
-  NinjaByteSpace(int maxLen) { e.init(12, 1, maxLen); }
+  NinjaByteSpace(int maxLen) { e.init(14, 1, maxLen); }
   long long count() override { return e.count(); }
   void get(long long idx, Item& it) override {
     std::vector<int> d; e.decode(idx, d); std::string s; for (int x : d) s += (char)kNinjaBytes[x];
